@@ -3,6 +3,7 @@ import GB.C04.StageOracle
 import GB.C04.WF
 import GB.C04.B64
 import GB.C04.TextProofs
+import GB.C04.Order
 import GB.Generated.Facts
 /-
   C04 — transcoded requests populate the gRPC message per the http.proto binding rules.
@@ -952,15 +953,90 @@ theorem C04_oneof_order_dependent_witness :
     ∧ transcode exSchemaO exNoOracle exO ⟨[]⟩ .none ⟨[([97, 46, 120], [49]), ([98], [50])], []⟩ = .error .invalidArgument := by
   decide
 
-/-- KNOWN FINDING D4d (negative witness): two query keys that name the same field — its proto name and its
-    JSON name — are both applied, in Go map iteration order, so the ACCEPTED message differs from run to run:
-    J { int32 a_b = 1 [json_name="aB"] }, `?a_b=1&aB=2` gives a_b = 2 in one order and a_b = 1 in the other.
-    (`Unrelated` fails for this request, which is why `C04_order_independent` does not apply.) -/
+/-- D4d, REPAIRED by repo commit fc13e30 (negative witness about the PRE-fix code = `transcode` applied to the
+    entries in whatever order the Go runtime listed them): two query keys that name the same field — its proto
+    name and its JSON name — are both applied, in the order given, so before the fix the ACCEPTED message differed
+    from run to run: J { int32 a_b = 1 [json_name="aB"] }, `?a_b=1&aB=2` gives a_b = 2 in one order and a_b = 1
+    in the other. (`Unrelated` fails for this request, which is why `C04_order_independent` does not apply.)
+    The fixed code is `transcodeSorted`: `C04_overlap_deterministic`, `C04_query_spelling_fixed`. -/
 theorem C04_query_spelling_order_dependent_fails :
     transcode exSchemaJ exNoOracle exJ ⟨[]⟩ .none ⟨[], [([97, 95, 98], [[49]]), ([97, 66], [[50]])]⟩
       = .ok [([[97, 95, 98]], .single (.int 2))]
     ∧ transcode exSchemaJ exNoOracle exJ ⟨[]⟩ .none ⟨[], [([97, 66], [[50]]), ([97, 95, 98], [[49]])]⟩
       = .ok [([[97, 95, 98]], .single (.int 1))] := by
+  decide
+
+/-! ## after fix fc13e30: the keys are applied in sorted order (D4d repaired) -/
+
+/-- The fixed code's result is a FUNCTION OF THE REQUEST: two listings of the same `PathParams` map and the same
+    `url.Values` map (any permutations of each other; a Go map holds a key once) give the same outcome — the same
+    error or the very same message — with NO hypothesis about overlapping keys, oneofs or the schema. -/
+theorem C04_overlap_deterministic (sch : Schema) (orc : Oracle) (root : MsgDesc) (bd : Binding) (dec : Dec)
+    (pp pp' : List (Bytes × Bytes)) (q q' : List (Bytes × List Bytes))
+    (hpp : pp.Perm pp') (hq : q.Perm q')
+    (hkp : (pp.map (·.1)).Nodup) (hkq : (q.map (·.1)).Nodup) :
+    transcodeSorted sch orc root bd dec ⟨pp, q⟩ = transcodeSorted sch orc root bd dec ⟨pp', q'⟩ := by
+  simp only [transcodeSorted, sortReq, sortKeys_canonical pp pp' hpp hkp, sortKeys_canonical q q' hq hkq]
+
+/-- … and so is every message of a request stream. -/
+theorem C04_overlap_deterministic_stream (sch : Schema) (orc : Oracle) (root : MsgDesc) (bd : Binding) (decs : List Dec)
+    (pp pp' : List (Bytes × Bytes)) (q q' : List (Bytes × List Bytes))
+    (hpp : pp.Perm pp') (hq : q.Perm q')
+    (hkp : (pp.map (·.1)).Nodup) (hkq : (q.map (·.1)).Nodup) :
+    streamTranscodeSorted sch orc root bd ⟨pp, q⟩ decs = streamTranscodeSorted sch orc root bd ⟨pp', q'⟩ decs := by
+  simp only [streamTranscodeSorted, sortReq, sortKeys_canonical pp pp' hpp hkp, sortKeys_canonical q q' hq hkq]
+
+/-- The fix invents no new behaviour: the outcome of the fixed code is one of the outcomes the pre-fix code (any
+    iteration order of the two maps) could produce for this request. -/
+theorem C04_sorted_is_some_order (sch : Schema) (orc : Oracle) (root : MsgDesc) (bd : Binding) (dec : Dec) (rq : Request) :
+    ∃ pp' q', pp'.Perm rq.pathParams ∧ q'.Perm rq.query
+      ∧ transcodeSorted sch orc root bd dec rq = transcode sch orc root bd dec ⟨pp', q'⟩ :=
+  ⟨sortKeys rq.pathParams, sortKeys rq.query, sortKeys_perm _, sortKeys_perm _, rfl⟩
+
+/-- The order the fixed code uses is sorted by key (Go string order, bytewise) and keeps exactly the entries. -/
+theorem C04_sorted_order (rq : Request) :
+    (sortReq rq).pathParams.Pairwise keyLe ∧ (sortReq rq).query.Pairwise keyLe
+    ∧ (sortReq rq).pathParams.Perm rq.pathParams ∧ (sortReq rq).query.Perm rq.query :=
+  ⟨sortKeys_sorted _, sortKeys_sorted _, sortKeys_perm _, sortKeys_perm _⟩
+
+/-- `bytesLe` is Go's `<=` on strings read as a total order: reflexive, total, antisymmetric, transitive. -/
+theorem C04_key_order_total :
+    (∀ a, bytesLe a a = true) ∧ (∀ a b, bytesLe a b = true ∨ bytesLe b a = true)
+    ∧ (∀ a b, bytesLe a b = true → bytesLe b a = true → a = b)
+    ∧ (∀ a b c, bytesLe a b = true → bytesLe b c = true → bytesLe a c = true) :=
+  ⟨bytesLe_refl, bytesLe_total, bytesLe_antisymm, bytesLe_trans⟩
+
+/-- Where `C04_refines` applies (no oneofs on the way, no overlapping keys) the fix changes nothing observable:
+    the fixed code accepts exactly when the order-parametric core does in the listed order, with the same
+    populated leaves — so `C04_refines` / `StageSpec` carry over to the fixed code. -/
+theorem C04_sorted_agrees_in_domain (sch : Schema) (orc : Oracle) (root : MsgDesc) (bd : Binding) (dec : Dec)
+    (rq : Request) (srcs : List Src)
+    (hs : srcsOf sch root (allCalls sch root bd rq) = some srcs) (hu : Unrelated srcs) :
+    (∀ m m', transcode sch orc root bd dec rq = .ok m → transcodeSorted sch orc root bd dec rq = .ok m' →
+        ∀ x, lget m x = lget m' x)
+    ∧ ((∃ m, transcode sch orc root bd dec rq = .ok m) ↔ (∃ m', transcodeSorted sch orc root bd dec rq = .ok m')) :=
+  C04_order_independent sch orc root bd dec rq.pathParams (sortKeys rq.pathParams) rq.query (sortKeys rq.query) srcs
+    (sortKeys_perm _).symm (sortKeys_perm _).symm hs hu
+
+/-- the fixed stream: every message is the fixed unary transcoding of its body -/
+theorem C04_stream_sorted (sch : Schema) (orc : Oracle) (root : MsgDesc) (bd : Binding) (rq : Request) (decs : List Dec) :
+    streamTranscodeSorted sch orc root bd rq decs = decs.map (fun d => transcodeSorted sch orc root bd d rq) :=
+  C04_stream sch orc root bd (sortReq rq) decs
+
+/-- D4d's witness request after the fix: `?a_b=1&aB=2` on J { int32 a_b = 1 [json_name="aB"] } gives a_b = 1 in
+    BOTH listings ("aB" sorts before "a_b", so the proto spelling is applied last). -/
+theorem C04_query_spelling_fixed :
+    transcodeSorted exSchemaJ exNoOracle exJ ⟨[]⟩ .none ⟨[], [([97, 95, 98], [[49]]), ([97, 66], [[50]])]⟩
+      = .ok [([[97, 95, 98]], .single (.int 1))]
+    ∧ transcodeSorted exSchemaJ exNoOracle exJ ⟨[]⟩ .none ⟨[], [([97, 66], [[50]]), ([97, 95, 98], [[49]])]⟩
+      = .ok [([[97, 95, 98]], .single (.int 1))] := by
+  decide
+
+/-- the oneof witness after the fix: path variables `b=2`, `a.x=1` on O { oneof o { S a = 1; int32 b = 2 } } are
+    REJECTED in both listings ("a.x" sorts before "b": b is refused because the walk to a.x populated a). -/
+theorem C04_oneof_order_fixed :
+    transcodeSorted exSchemaO exNoOracle exO ⟨[]⟩ .none ⟨[([98], [50]), ([97, 46, 120], [49])], []⟩ = .error .invalidArgument
+    ∧ transcodeSorted exSchemaO exNoOracle exO ⟨[]⟩ .none ⟨[([97, 46, 120], [49]), ([98], [50])], []⟩ = .error .invalidArgument := by
   decide
 
 /-! ## base64 text of bytes fields -/
